@@ -138,6 +138,7 @@ def newslotclean(run, fx):
             run.violated('NEWSLOTCLEAN', inst, ns.loc(r), 'Segment::newSlot returns `%s` whose next link still points into the free list: the caller '
                          'links a slot whose next is garbage into the stream' % v)
     slot_ctor_clean(run, fx, 'NEWSLOTCLEAN')
+    charinfo_ctor(run, fx, 'NEWSLOTCLEAN')
 
 
 def slot_ctor_clean(run, fx, rule):
@@ -189,6 +190,34 @@ def slot_ctor_clean(run, fx, rule):
                                                                    (' -- stream / attachment links %s' % links) if links else ''))
     else:
         run.held(rule, 'Slot constructor', f.where(), 'all %d data members initialised; pointer members null or taken from the constructor parameter' % len(rec['fields']), False)
+
+
+def charinfo_ctor(run, fx, rule):
+    """the char-info array comes from `new CharInfo[n]` (operator new is malloc here), and Segment::appendSlot assigns only some of the
+    members; the others -- the flags behind gr_slatSegSplit, the break weight -- are only ever or-ed into or read.  So the default
+    constructor is what makes them defined: it initialises every data member (history independence, and "finite / defined" values of
+    what the API reports)."""
+    ctor = [f for f in fx.fns_named('graphite2::CharInfo::CharInfo') if not f.f.get('implicit') and not (f.f.get('params') or [])]
+    inst = 'CharInfo constructor initialises every member'
+    if len(ctor) != 1:
+        run.broken(rule, inst, 'expected one user-written default constructor of CharInfo, found %d' % len(ctor))
+        return
+    f = ctor[0]
+    rec = fx.record('graphite2::CharInfo')
+    done = set()
+    for _, e in f.elements():
+        if e['k'] == 'Init' and e.get('field') and not (e.get('implicit') and e.get('init') is None):
+            done.add(e['field'].split('::')[-1])
+        if e['k'] == 'BinaryOperator' and e['op'] == '=':
+            l = f.strip(e['c'][0])
+            if l['k'] == 'MemberExpr' and l.get('dk') == 'Field':
+                done.add(l['d'].split('::')[-1])
+    missing = [fl['n'] for fl in rec['fields'] if not fl.get('static') and fl['n'] not in done]
+    if missing:
+        run.violated(rule, inst, f.where(), 'CharInfo\'s constructor leaves %s as malloc returned them: what gr_slot_attr(.., gr_slatSegSplit) / the break weight report for a fresh segment '
+                     'depends on what the heap block held before -- on the history of earlier calls' % missing)
+    else:
+        run.held(rule, inst, f.where(), 'all %d data members initialised' % len(rec['fields']))
 
 
 def freedslot(run, fx, rule):
